@@ -14,5 +14,6 @@ CONSTANTS
   WithUnion = TRUE
   WithMeta = TRUE
   WithLiteral = TRUE
+  WithForeign = TRUE
 INVARIANT Report
 CHECK_DEADLOCK FALSE
